@@ -145,6 +145,8 @@ def map_scenario(sc):
             if e['g'] in g2h:
                 h = g2h[e['g']]; pump_close(h)
                 if h not in pump_done: pump_done.add(h); lab('LPump %d' % h)
+        elif p == 'decorator.close.inner_closed':
+            if e['g'] in g2h: lab('LSubCloseRet %d' % g2h[e['g']])
         elif p == 'decorator.close.signalled':
             if e['g'] in g2h: lab('LHc %d' % g2h[e['g']])
         elif p in ('router.handler.wg_locked', 'router.handler.wg_added'):
@@ -245,7 +247,7 @@ TRUSTED_BASE = [
     'modelled, not verified: Go runtime semantics of sync.Mutex, sync.WaitGroup, channels/select (any ready case), context cancellation, time.After (may fire whenever the closer waits); '
     'Router/Close.v is hand-written from message/router.go (Close, waitForHandlers, Run tail, the RunHandlers goroutine + handler.run, handleClose, handleMessage), '
     'message/decorator.go (pump + Close) and pubsub/sync/waitgroup.go (folded into the closer\'s select) and tied to them by schedule replay of the stamped hook log',
-    'subscriber contract assumed by the model: Close() returns; the channel closes after Close() was called or (ctx-honouring subscribers) after the Subscribe context ended; handlersLock is folded into closedLock '
+    'subscriber contract of the model: the channel closes after Close() was called or (ctx-honouring subscribers) after the Subscribe context ended; whether and when the subscriber\'s Close() RETURNS is an environment choice (it may block for ever); handlersLock is folded into closedLock '
     '(AddHandler/RunHandlers/Stop concurrent with Close are outside the model: C10)',
     'the stamp discipline (acquire: stamp after; release: stamp before; close(closingInProgressCh) placed as late as the log allows; pump steps without a hook inserted as late as possible) and the Python mapper checks/c06.py',
     'Router/CloseMonitor.v mon_run is an executable oracle on the implementation history (not proved equivalent to the model theorems); it is also evaluated on the MODEL\'s own trace of every replayed schedule (must accept for the repaired variant) and proved to reject the D5/D12 witness traces',
@@ -296,7 +298,7 @@ def classify(res, scs, mapped, reps, mons):
         if sc.get('panics'):
             res.violations.append(dict(signature='C06/panic', what='panic in Run/Close: %s' % sc['panics'][:2], case=readable(sc, mp)))
         for h in sc.get('hung') or []:
-            res.violations.append(dict(signature='C06/never-returns', what=h, case=readable(sc, mp)))
+            res.violations.append(dict(signature='C06/close-hangs-beyond-CloseTimeout' if h.startswith('Close hangs') else 'C06/never-returns', what=h, case=readable(sc, mp)))
         seen = set()
         for i, c in mo:
             if c in seen: continue
